@@ -3,6 +3,7 @@
    among them; only leaf tasks are ever on the work list (and so in the ledger). *)
 From Coq Require Import List Arith.
 Require Import SP.Model.Sched SP.Proofs.SchedFinal.
+Require Import SP.Model.Alap SP.Proofs.AlapProofs.
 
 Theorem C10_summary : forall p c, t_leaf (task_of p c) = false -> t_leaves (task_of p c) <> nil ->
   (forall s e, dates p (schedule p) c = Some (s, e) ->
@@ -16,3 +17,16 @@ Print Assumptions C10_summary.
 
 Theorem C10_leaf_only : forall p t, In t (work0 p) -> t_leaf (task_of p t) = true.
 Proof. exact in_work0_leaf. Qed.
+
+(* ---- backward (ALAP) mode: the project record is read backwards (Model/Alap.v: t_deps = successor edges,
+   t_pin = own end, t_lb = earliest deadline of the enclosing containers, n = p_upper slots) and the schedule
+   is the mirror image of the forward schedule of the mirrored project *)
+Theorem C10_alap : forall p c, t_leaf (task_of p c) = false -> t_leaves (task_of p c) <> nil ->
+  (forall s e, alap_dates p c = Some (s, e) ->
+     (forall t, In t (t_leaves (task_of p c)) -> exists d, alap_leaf_dates p t = Some d) /\
+     (forall t s' e', In t (t_leaves (task_of p c)) -> alap_leaf_dates p t = Some (s', e') -> s <= s' /\ e' <= e) /\
+     (exists t s' e', In t (t_leaves (task_of p c)) /\ alap_leaf_dates p t = Some (s', e') /\ s' = s) /\
+     (exists t s' e', In t (t_leaves (task_of p c)) /\ alap_leaf_dates p t = Some (s', e') /\ e' = e)) /\
+  (alap_dates p c = None -> exists t, In t (t_leaves (task_of p c)) /\ alap_leaf_dates p t = None).
+Proof. exact alap_container_summary. Qed.
+Print Assumptions C10_alap.
